@@ -26,7 +26,7 @@ CHILD = os.path.join(core.HERE, "vf", "c03_child.py")
 
 
 def cases(tier, seed):
-    n, seeds, orders = (12, 4, 2) if tier == "quick" else (150, 8, 3)
+    n, seeds, orders = (12, 3, 3) if tier == "quick" else (150, 8, 4)
     for i in range(n):
         yield {"seed": seed, "idx": i, "hashseeds": seeds, "orders": orders}
 
@@ -52,6 +52,17 @@ def run_case(case):
     # every program carries at least one set constant (the hash-seed sensitive feature)
     if not any(nd["sconst"] for nd in prog["nodes"]):
         prog["nodes"][0]["sconst"] = ["alpha", "beta", "gamma", "delta"]
+    # ... and a project helper that shadows a builtin name (late definitions of such names are a special case)
+    plain = [nd for nd in prog["nodes"] if nd["kind"] == "plain"]
+    if plain and not any(nd["name"] in progs.BUILTIN_NAMES for nd in prog["nodes"]) and case["idx"] % 2 == 0:
+        old, new = plain[0]["name"], rng.choice(progs.BUILTIN_NAMES)
+        plain[0]["name"] = new
+        for al in prog["aliases"]:
+            al["name"] = al["name"].replace("_" + old, "_" + new) if al["name"].endswith("_" + old) else al["name"]
+        for nd in prog["nodes"]:
+            for c in nd["calls"]:
+                if c.get("alias", "").endswith("_" + old):
+                    c["alias"] = c["alias"][: -len(old)] + new
     out["sets"]["features"] |= progs.features(prog)
     fns = [[nd["mod"], nd["name"]] for nd in prog["nodes"] if nd["kind"] == "memento"]
 
@@ -64,7 +75,10 @@ def run_case(case):
         srcs = []
         for o in range(case["orders"]):
             order = list(range(len(prog["nodes"])))
-            if o:
+            if o == 1:
+                # memento functions first, helpers afterwards: every helper is still undefined when its users register
+                order.sort(key=lambda i: (prog["nodes"][i]["kind"] != "memento", -i))
+            elif o:
                 rng.shuffle(order)
             src = sc.path("src%d" % o)
             progs.write_package(prog, src, order=order)
